@@ -162,33 +162,7 @@ theorem C05_leave_gone (r : Realm) (hi : RealmInv r) (k : SessKey) (mode : Leave
   · intro t ht
     have : t ∈ r.testaments.filter (fun t => t.1 != k) := leave_testaments r k mode hk ▸ ht
     simpa using (List.mem_filter.mp this).2
-  · intro k'
-    obtain ⟨c, hc, hck⟩ := hk
-    cases hf : r.clients.find? (fun c => c.key == k) with
-    | none =>
-      have := List.find?_eq_none.mp hf c hc
-      simp [hck] at this
-    | some s =>
-      have hsk := (find?_key hf).2
-      constructor
-      · intro h
-        refine ⟨h4 k' h, fun e => g4 ?_⟩
-        have h' := h
-        rw [e] at h'
-        exact h'
-      · rintro ⟨⟨c', hc', rfl⟩, hne⟩
-        show (r.leave k mode).isClient c'.key
-        rw [leave_some mode hf]
-        refine (isClient_leaveClose _ s c'.key).mpr ⟨?_, hsk ▸ hne⟩
-        -- the stages before `sess.Close()` keep the clients
-        obtain ⟨q1, _⟩ := good_leaveSend hi ⟨c, hc, hck⟩ mode
-        obtain ⟨q2, _⟩ := good_takeTestaments q1.1 k
-        obtain ⟨q3, _, _⟩ := good_leaveRemove q2.1 k mode.isShutdown
-        have q13 := q1.trans (q2.trans q3)
-        have hcl : (leaveRemove ((leaveSend r k mode).takeTestaments k).2 k mode.isShutdown).isClient c'.key :=
-          (q13.isClient c'.key).mpr ⟨c', hc', rfl⟩
-        unfold leaveAnnounce
-        split <;> exact hcl
+  · exact leave_isClient hi k mode hk hnb'
 
 /-- Every call `k` was serving is answered in that step: the dealer part of the (non-shutdown)
     departure hands exactly one ERROR(CALL, request, wamp.error.canceled, ["<text>"]) per invocation
